@@ -236,18 +236,25 @@ def enumerate_faults(kind, mode, variant, rng, res: CaseResult):
                 what = f'{kind} ({mode}): process killed while writing `{p}` ({L} of {n} bytes on disk)'
                 check_after(lab, ref, root, slug, res, dict(base_witness, fault=['torn', i, p, L, n]), what, d)
         # ---- (c) raise points ----------------------------------------------------------------------------------------
-        for fk in RAISE_KINDS.get(kind, DEFAULT_RAISE):
+        for fk, repeats in [(fk_, rp_) for fk_ in RAISE_KINDS.get(kind, DEFAULT_RAISE) for rp_ in (1, 2)]:
             d = fresh_dir('raise')
-            steps = faulted_steps([{'op': 'arm_fault', 'chain': 'c', 'task': slug, 'kind': fk}]) + [{'op': 'disarm', 'chain': 'c'}, {'op': 'value', 'chain': 'c', 'task': slug}]
+            # repeats == 2: the same request fails twice in a row (the second failure meets what the first one left behind) before the cause is removed
+            steps = faulted_steps([{'op': 'arm_fault', 'chain': 'c', 'task': slug, 'kind': fk, 'times': repeats}]) + [{'op': 'value', 'chain': 'c', 'task': slug}] * (repeats - 1) \
+                + [{'op': 'disarm', 'chain': 'c'}, {'op': 'value', 'chain': 'c', 'task': slug}]
             r = lab.run(steps, data_dir=d)
             if session_problem(r):
                 res.inconclusive.append(session_problem(r))
                 continue
             res.count('raise_points')
-            res.nt(jhash([kind, mode, variant, 'raise', fk]))
+            if repeats == 2:
+                res.count('repeated_failures')
+            res.nt(jhash([kind, mode, variant, 'raise', fk, repeats]))
             failed, retry = r['steps'][-3], r['steps'][-1]
-            what = f'{kind} ({mode}): {fk}'
-            witness = dict(base_witness, fault=['raise', fk])
+            what = f'{kind} ({mode}): {fk}' + (' twice in a row' if repeats == 2 else '')
+            witness = dict(base_witness, fault=['raise', fk, repeats])
+            if repeats == 2 and not failed['ok'] and not r['steps'][-4]['ok'] and failed.get('exc') != r['steps'][-4].get('exc'):
+                res.violate(f'{what}: the second failing attempt raised {failed.get("exc")}: {str(failed.get("msg"))[:150]} instead of the error of the run '
+                            f'({r["steps"][-4].get("exc")})', witness=witness, facts={'tag': 'second_failure_other_error'})
             if failed['ok']:
                 res.violate(f'{what}: the failing computation returned a value instead of raising', witness=witness, facts={'tag': 'fault_swallowed'})
                 continue
